@@ -72,6 +72,14 @@ def Disk.cutIdx (d : Disk) (n : Nat) : Disk :=
 def Disk.cutFile (d : Disk) (fid n : Nat) : Disk :=
   { d with files := setFile d.files fid ((d.files fid).take n) }
 
+/-- The harness's crash cut: INDEX cut to `il` bytes, data file `fid` cut to `fl` bytes
+    (`none` = the file is removed). -/
+def applyCut (d : Disk) (il fid : Nat) (fl : Option Nat) : Disk :=
+  let d1 := d.cutIdx il
+  match fl with
+  | none => { d1 with files := setFile d1.files fid [] }
+  | some n => d1.cutFile fid n
+
 /-- `open_index`: default entry for an empty index, then trim a partial entry. `none` = Err
     (an index of 1..11 bytes: trimmed to 0 after the emptiness test, the first read fails). -/
 def openIndex (d : Disk) : Option Disk :=
